@@ -1,6 +1,8 @@
 import Poulpy.Lemmas.CoreOpsVal
 import Poulpy.Lemmas.CoreOpsProg
 import Poulpy.Lemmas.CoreOpsNorm
+import Poulpy.Lemmas.CoreOpsShift
+import Poulpy.Props.C08
 
 /-!
 # C02 — noise-free ciphertext operations commute exactly with decryption
@@ -145,16 +147,16 @@ example : ∃ r', glweSubNegateAssign 2 exRes2 exPt = .ok r' ∧
     (by decide) (by decide) (by decide) (by decide) rfl (by decide)
   exact ⟨r', h, hp⟩
 
-/-- `glwe_negate`.  The API has no radix assertion; the statement is about limb columns and holds
-for any pair of radices — what fails for different radices is their reading as torus values, see
-`negate_radix_counterexample`. -/
-theorem negate_phase {N : Nat} {res a : GLWE} (hr : GWF N res) (ha : GWF N a) (sa : GSmall a) (hrank : a.rank = res.rank) :
+/-- `glwe_negate` (operands of one radix, as the API now asserts: the limb-column identity is the
+torus identity) -/
+theorem negate_phase {N : Nat} {res a : GLWE} (hr : GWF N res) (ha : GWF N a) (sa : GSmall a)
+    (hb : res.base2k = a.base2k) (hrank : a.rank = res.rank) :
     ∃ r', glweNegate N res a = .ok r' ∧ Same res r' ∧ GWF N r' ∧ r'.size = res.size ∧
       ∀ s, phase s r' = (fit N res.size (phase s a)).map polyNeg :=
-  negate_ok hr ha sa hrank
+  negate_ok hr ha sa hb hrank
 
 example : ∃ r', glweNegate 2 exRes exA = .ok r' ∧ ∀ s, phase s r' = (fit 2 2 (phase s exA)).map polyNeg := by
-  obtain ⟨r', h, _, _, _, hp⟩ := negate_phase (N := 2) (res := exRes) (a := exA) (by decide) (by decide) (by decide) rfl
+  obtain ⟨r', h, _, _, _, hp⟩ := negate_phase (N := 2) (res := exRes) (a := exA) (by decide) (by decide) (by decide) rfl rfl
   exact ⟨r', h, hp⟩
 
 /-- `glwe_negate_assign` -/
@@ -168,27 +170,27 @@ example : ∃ r', glweNegateAssign 2 exA = .ok r' ∧ ∀ s, phase s r' = (phase
   exact ⟨r', h, hp⟩
 
 /-- `glwe_copy` (same rank, or a plaintext copied into a ciphertext whose mask is zeroed) -/
-theorem copy_phase {N : Nat} {res a : GLWE} (hr : GWF N res) (ha : GWF N a)
+theorem copy_phase {N : Nat} {res a : GLWE} (hr : GWF N res) (ha : GWF N a) (hb : res.base2k = a.base2k)
     (hrank : (res.rank == a.rank || a.rank == 0) = true) :
     ∃ r', glweCopy N res a = .ok r' ∧ Same res r' ∧ GWF N r' ∧ r'.size = res.size ∧
       ∀ s, phase s r' = fit N res.size (phase s a) :=
-  copy_ok hr ha hrank
+  copy_ok hr ha hb hrank
 
 example : ∃ r', glweCopy 2 exRes2 exPt = .ok r' ∧ ∀ s, phase s r' = fit 2 2 (phase s exPt) := by
-  obtain ⟨r', h, _, _, _, hp⟩ := copy_phase (N := 2) (res := exRes2) (a := exPt) (by decide) (by decide) (by decide)
+  obtain ⟨r', h, _, _, _, hp⟩ := copy_phase (N := 2) (res := exRes2) (a := exPt) (by decide) (by decide) rfl (by decide)
   exact ⟨r', h, hp⟩
 
 /-! ## rotation by `X^k` and multiplication by `X^k − 1`, every `k ∈ ℤ` -/
 
 /-- `glwe_rotate` -/
 theorem rotate_phase {N : Nat} (k : Int) {res a : GLWE} (hr : GWF N res) (ha : GWF N a) (sa : GSmall a)
-    (hrank : (res.rank == a.rank || a.rank == 0) = true) :
+    (hb : res.base2k = a.base2k) (hrank : (res.rank == a.rank || a.rank == 0) = true) :
     ∃ r', glweRotate N k res a = .ok r' ∧ Same res r' ∧ GWF N r' ∧ r'.size = res.size ∧
       ∀ s, phase s r' = (fit N res.size (phase s a)).map (rotP k) :=
-  rotate_ok k hr ha sa hrank
+  rotate_ok k hr ha sa hb hrank
 
 example : ∃ r', glweRotate 2 (-7) exRes exA = .ok r' ∧ ∀ s, phase s r' = (fit 2 2 (phase s exA)).map (rotP (-7)) := by
-  obtain ⟨r', h, _, _, _, hp⟩ := rotate_phase (N := 2) (-7) (res := exRes) (a := exA) (by decide) (by decide) (by decide) (by decide)
+  obtain ⟨r', h, _, _, _, hp⟩ := rotate_phase (N := 2) (-7) (res := exRes) (a := exA) (by decide) (by decide) (by decide) rfl (by decide)
   exact ⟨r', h, hp⟩
 
 /-- `glwe_rotate_assign` -/
@@ -203,13 +205,13 @@ example : ∃ r', glweRotateAssign 2 5 exA = .ok r' ∧ ∀ s, phase s r' = (pha
 
 /-- `glwe_mul_xp_minus_one` -/
 theorem mul_xp_minus_one_phase {N : Nat} (k : Int) {res a : GLWE} (hr : GWF N res) (ha : GWF N a) (sa : GSmall a)
-    (hrank : res.rank = a.rank) :
+    (hb : res.base2k = a.base2k) (hrank : res.rank = a.rank) :
     ∃ r', glweMulXpMinusOne N k res a = .ok r' ∧ Same res r' ∧ GWF N r' ∧ r'.size = res.size ∧
       ∀ s, phase s r' = (fit N res.size (phase s a)).map (mxpP k) :=
-  mulXpMinusOne_ok k hr ha sa hrank
+  mulXpMinusOne_ok k hr ha sa hb hrank
 
 example : ∃ r', glweMulXpMinusOne 2 3 exRes exB = .ok r' ∧ ∀ s, phase s r' = (fit 2 2 (phase s exB)).map (mxpP 3) := by
-  obtain ⟨r', h, _, _, _, hp⟩ := mul_xp_minus_one_phase (N := 2) 3 (res := exRes) (a := exB) (by decide) (by decide) (by decide) rfl
+  obtain ⟨r', h, _, _, _, hp⟩ := mul_xp_minus_one_phase (N := 2) 3 (res := exRes) (a := exB) (by decide) (by decide) (by decide) rfl rfl
   exact ⟨r', h, hp⟩
 
 /-- `glwe_mul_xp_minus_one_assign` -/
@@ -280,7 +282,8 @@ What is proved: the reduction of that statement to the value specification of th
 (`A·val(out column) = B·val(in column) + Eᵢ`, the shape of the C08 value theorems), with the exact
 error expression `E₀ + Σ sᵢ ⋆ Eᵢ₊₁`; instantiated for `glwe_normalize`.  The `lsh` family and
 `normalize_assign` have the same column-wise structure (`phase_value_modulo_norm` applies to their
-results verbatim) but are not instantiated; `glwe_rsh` violates the statement (see below). -/
+results verbatim) but are not instantiated.  `glwe_rsh` is proved outright (`rsh_phase`, from `C08.rsh_value`), with the
+numeric bound `phase_error_bound`. -/
 
 /-- value form of the phase for any column-wise kernel: if every result column satisfies
 `A·val(r'ᵢ) = B·val(aᵢ) + Eᵢ`, the phases satisfy the same relation with error `E₀ + Σ sᵢ ⋆ Eᵢ₊₁` -/
@@ -333,6 +336,115 @@ example : ∃ r', glweNormalize 2 { base2k := 4, k := 4, n := 2, cols := [[[0, 0
       subst this; decide +kernel)
   exact ⟨r', h, hp⟩
 
+/-- numeric form of the error term: **`|E₀ + Σ sᵢ ⋆ Eᵢ₊₁| ≤ (1 + Σ‖sᵢ‖₁)·max|E|`**, coefficient-wise
+(`snorm m s = Σ_{i<m} ‖sᵢ‖₁`; from the norm inequality `‖p ⋆ q‖∞ ≤ ‖p‖₁·‖q‖∞` of C01) -/
+theorem phase_error_bound {B : Int} (m : Nat) (s : List Poly) (E : Nat → Poly)
+    (hE : ∀ i, i ≤ m → ∀ v ∈ E i, |v| ≤ B) : ∀ v ∈ errTo m s E, |v| ≤ (1 + snorm m s) * B :=
+  errTo_bound m s E hE
+
+example : ∀ v ∈ errTo 1 [[1, -1]] (fun i => if i = 0 then [1, -1] else [0, 1]), |v| ≤ (1 + snorm 1 [[1, -1]]) * 1 :=
+  phase_error_bound 1 _ _ (by intro i hi v hv; have : i = 0 ∨ i = 1 := by omega
+                              rcases this with rfl | rfl <;> simp at hv <;> rcases hv with rfl | rfl <;> decide)
+
+/-- **`glwe_rsh`, every shift amount `k` and any scratch content** (the repaired `vec_znx_rsh_assign`;
+head-room of the C08 kernel: `|limb| ≤ H`, `H + 2^b + 4 ≤ 2^63`).  It returns `ok`, keeps the shape,
+every column is the column divided by `2^k` within one unit of the last limb (`NormL.TorusNear`), and
+the phase is the phase divided by `2^k` within `1 + Σ‖sᵢ‖₁` units — for every secret. -/
+theorem rsh_phase {N : Nat} {res : GLWE} (hr : GWF N res) {H : Int} (hh : NormL.HeadRoom 64 res.base2k 0 H)
+    (hb : GBound H res) (scr : Int) (k : Nat) :
+    ∃ r', glweRsh N scr k res = .ok r' ∧ Same res r' ∧ GWF N r' ∧ r'.size = res.size ∧
+      (∀ i, i ≤ res.rank → ∀ t, t < N →
+        NormL.TorusNear (valCoeff res.base2k (col r' i) t) (res.base2k * res.size)
+          (valCoeff res.base2k (col res i) t) (res.base2k * res.size + k)) ∧
+      ∀ (s : List Poly) t, t < N → ∃ q e : Int,
+        valCoeff res.base2k (phase s r') t * 2 ^ (res.base2k * res.size + k)
+          = valCoeff res.base2k (phase s res) t * 2 ^ (res.base2k * res.size) + e
+            + q * 2 ^ (res.base2k * res.size + (res.base2k * res.size + k)) ∧
+        |e| ≤ (1 + snorm (min res.rank s.length) s) * 2 ^ (res.base2k * res.size + k) := by
+  obtain ⟨r', h1, h2, h3, h4, h5, h6⟩ := rsh_generic hr scr k (fun a => rshCoef .overwrite res.base2k k a a)
+    (fun _ => rfl) (res.base2k * res.size) (res.base2k * res.size + k) (2 ^ (res.base2k * res.size + k))
+    (kernelOn_of_bound hr hh.hH0 hb _ _ _ _ _ fun a ha hab => by
+      have h := C08.rsh_value hh k a a hab
+      rw [ha] at h
+      exact ⟨h.1, h.2.2.1⟩)
+  exact ⟨r', h1, h2, h3, h4, h5, h6⟩
+
+/-- the former defect witnesses (`k = 0` with a non-normalised body, `⌈k/b⌉ = 2`, `⌈k/b⌉ > size`) are now
+inside the theorem: radix `2^4`, `H = 2^62` -/
+example : ∃ r', glweRsh 2 12345 0 { base2k := 4, k := 4, n := 2, cols := [[[9, 0]], [[1, 1]]] } = .ok r' ∧
+    ∀ (s : List Poly) t, t < 2 → ∃ q e : Int,
+      valCoeff 4 (phase s r') t * 2 ^ (4 * 1 + 0) = valCoeff 4 (phase s { base2k := 4, k := 4, n := 2, cols := [[[9, 0]], [[1, 1]]] }) t * 2 ^ (4 * 1)
+        + e + q * 2 ^ (4 * 1 + (4 * 1 + 0)) ∧ |e| ≤ (1 + snorm (min 1 s.length) s) * 2 ^ (4 * 1 + 0) := by
+  obtain ⟨r', h, _, _, _, _, hp⟩ := rsh_phase (N := 2) (res := { base2k := 4, k := 4, n := 2, cols := [[[9, 0]], [[1, 1]]] })
+    (by decide) (H := 2 ^ 62) ⟨by norm_num, by norm_num, by norm_num, by norm_num, by norm_num⟩
+    (by intro c hc l hl x hx; simp at hc; rcases hc with rfl | rfl <;> simp at hl <;> subst hl <;> simp at hx <;>
+          rcases hx with rfl | rfl <;> norm_num) 12345 0
+  exact ⟨r', h, hp⟩
+
+example : glweRsh 2 0 2 { base2k := 1, k := 1, n := 2, cols := [[[1, 1]]] } = .ok { base2k := 1, k := 1, n := 2, cols := [[[-1, -1]]] } ∧
+    glweRsh 2 7 2 { base2k := 1, k := 2, n := 2, cols := [[[0, 0], [1, 1]]] }
+      = .ok { base2k := 1, k := 2, n := 2, cols := [[[-1, -1], [-1, -1]]] } := by
+  constructor <;> decide +kernel
+
+/-- **`glwe_normalize_assign`** re-normalises without changing the torus value of any column, hence of
+the phase (`e = 0`): outright, from `C08.normalize_assign_value` -/
+theorem normalize_assign_phase {N : Nat} {res : GLWE} (hr : GWF N res) {H : Int} (hh : NormL.HeadRoom 64 res.base2k 0 H)
+    (hb : GBound H res) :
+    ∃ r', glweNormalizeAssign N res = .ok r' ∧ Same res r' ∧ GWF N r' ∧ r'.size = res.size ∧
+      ∀ (s : List Poly) t, t < N → ∃ q : Int,
+        valCoeff res.base2k (phase s r') t * 2 ^ (res.base2k * res.size)
+          = valCoeff res.base2k (phase s res) t * 2 ^ (res.base2k * res.size)
+            + q * 2 ^ (res.base2k * res.size + res.base2k * res.size) := by
+  obtain ⟨r', h1, h2, h3, h4, _, h6⟩ := selfmap_generic hr (fun ri => normalizeAssignCol res.base2k ri N)
+    (normalizeAssignCoef res.base2k) (fun _ => rfl) (res.base2k * res.size) (res.base2k * res.size) 0
+    (kernelOn_of_bound hr hh.hH0 hb _ _ _ _ _ fun a ha hab => by
+      have h := C08.normalize_assign_value hh a hab
+      rw [ha] at h
+      obtain ⟨q, hq⟩ := h.2.2
+      exact ⟨h.1, q, 0, by linarith, by simp⟩)
+  refine ⟨r', h1, h2, h3, h4, fun s t ht => ?_⟩
+  obtain ⟨q, e, he, hb⟩ := h6 s t ht
+  have : e = 0 := by
+    have : |e| ≤ 0 := by simpa using hb
+    exact abs_eq_zero.mp (le_antisymm this (abs_nonneg e))
+  exact ⟨q, by rw [he, this]; ring⟩
+
+example : ∃ r', glweNormalizeAssign 2 { base2k := 4, k := 8, n := 2, cols := [[[3, -20], [100, 9]], [[0, 7], [-8, 8]]] } = .ok r' :=
+  let ⟨r', h, _⟩ := normalize_assign_phase (N := 2) (res := { base2k := 4, k := 8, n := 2, cols := [[[3, -20], [100, 9]], [[0, 7], [-8, 8]]] })
+    (by decide) (H := 2 ^ 62) ⟨by norm_num, by norm_num, by norm_num, by norm_num, by norm_num⟩
+    (by intro c hc l hl x hx; simp at hc; rcases hc with rfl | rfl <;> simp at hl <;> rcases hl with rfl | rfl <;> simp at hx <;>
+          rcases hx with rfl | rfl <;> norm_num)
+  ⟨r', h⟩
+
+/-- `glwe_lsh_assign` under the value specification of `vec_znx_lsh_assign` on the coefficient columns
+of `res` (`KernelOn`: `val(out)·2^py = val(in)·2^px + e + q·2^(px+py)`, `|e| ≤ U`) -/
+theorem lsh_assign_phase_modulo_norm {N : Nat} {res : GLWE} (hr : GWF N res) (k px py : Nat) (U : Int)
+    (hK : KernelOn N res (lshAssignCoef res.base2k k) res.base2k px py U) :
+    ∃ r', glweLshAssign N res k = .ok r' ∧ Same res r' ∧ GWF N r' ∧ r'.size = res.size ∧
+      ∀ (s : List Poly) t, t < N → ∃ q e : Int,
+        valCoeff res.base2k (phase s r') t * 2 ^ py = valCoeff res.base2k (phase s res) t * 2 ^ px + e + q * 2 ^ (px + py) ∧
+        |e| ≤ (1 + snorm (min res.rank s.length) s) * U := by
+  obtain ⟨r', h1, h2, h3, h4, _, h6⟩ := selfmap_generic hr (fun ri => lshAssignCol res.base2k k ri N)
+    (lshAssignCoef res.base2k k) (fun _ => rfl) px py U hK
+  exact ⟨r', h1, h2, h3, h4, h6⟩
+
+/-- rank 1, two limbs, radix `2^4` -/
+def exL : GLWE := { base2k := 4, k := 8, n := 2, cols := [[[3, -2], [5, 7]], [[1, 0], [-8, 6]]] }
+
+/-- left shift by 6 bits (8 bits of precision): exact, `val(out)/2^8 = val(in)·2^6/2^8 mod 1`, i.e. `px = 8`,
+`py = 2`, `U = 0`; the kernel hypothesis is checked on the four coefficient columns of this ciphertext -/
+example : ∃ r', glweLshAssign 2 exL 6 = .ok r' ∧
+    ∀ (s : List Poly) t, t < 2 → ∃ q e : Int,
+      valCoeff 4 (phase s r') t * 2 ^ 2 = valCoeff 4 (phase s exL) t * 2 ^ 8 + e + q * 2 ^ (8 + 2) ∧
+      |e| ≤ (1 + snorm (min 1 s.length) s) * 0 := by
+  obtain ⟨r', h, _, _, _, hp⟩ := lsh_assign_phase_modulo_norm (N := 2) (res := exL) (by decide) 6 8 2 0
+    (by
+      intro i hi t ht
+      have hi' : i ≤ 1 := hi
+      have : (i = 0 ∨ i = 1) ∧ (t = 0 ∨ t = 1) := by omega
+      rcases this with ⟨rfl | rfl, rfl | rfl⟩ <;> exact ⟨by decide, torus_exact_of_emod (by decide)⟩)
+  exact ⟨r', h, hp⟩
+
 /-! ## straight-line programs
 
 `specStep N sz P op` is the program step on plaintext limb columns (`P i` = phase of pool entry `i`,
@@ -366,53 +478,31 @@ example : ∃ p', run exPool exProg = .ok p' ∧
 example : step exPool (.rotate (-3) 1 2) ≠ .panic "assert" ∧ exactOp (.rotate (-3) 1 2) = true := by
   constructor <;> decide +kernel
 
-/-! ## defects of the pinned code (the model executes the code as it is)
+/-! ## operands of different radices are rejected
 
-FULL STATEMENT (false of the code, hence of the model): for every well-formed `res`, every `k` in
-`0 ..= (size+2)·base2k` and every scratch content, `glweRsh N scr k res = ok r'` and each column of
-`r'` is the column of `res` divided by `2^k` within one unit of the last limb (so the phase is the
-phase divided by `2^k` within `1 + Σ‖sᵢ‖₁` units).  It fails for `k = 0` (the carry of
-`vec_znx_rsh_assign` is never initialised), for `⌈k/base2k⌉ ≥ 2` (carry one limb too high) and
-panics for `⌈k/base2k⌉ > size`.  `k = 0` must be the identity on the torus: -/
+Before the repair `fix: glwe_negate / glwe_copy / glwe_rotate / glwe_mul_xp_minus_one accepted operands
+of different base2k` these four operations copied the digits of a radix-`2^a` operand verbatim into a
+radix-`2^b` result (the limb-column theorems held, their reading as torus values did not).  They now
+carry the assertion their siblings always had: -/
 
-/-- witness: rank 1, one limb, radix `2^4`, zeroed scratch; the body `9` is not normalised, its
-carry-out is left in the scratch words and added to the mask -/
-def exRsh : GLWE := { base2k := 4, k := 4, n := 2, cols := [[[9, 0]], [[1, 1]]] }
+/-- a radix mismatch is an assertion failure in all four operations (well-formed operands) -/
+theorem radix_mismatch_rejected {N : Nat} (k : Int) {res a : GLWE} (hr : GWF N res) (ha : GWF N a)
+    (hb : res.base2k ≠ a.base2k) :
+    glweNegate N res a = .panic "assert" ∧ glweCopy N res a = .panic "assert" ∧
+    glweRotate N k res a = .panic "assert" ∧ glweMulXpMinusOne N k res a = .panic "assert" := by
+  have hf : (res.base2k == a.base2k) = false := by simpa using hb
+  refine ⟨?_, ?_, ?_, ?_⟩
+  · unfold glweNegate
+    rw [check_true _ _ (beq_true ha.1), check_true _ _ (beq_true hr.1)]; simp [check, hf]
+  · unfold glweCopy
+    rw [check_true _ _ (beq_true hr.1), check_true _ _ (beq_true ha.1)]; simp [check, hf]
+  · unfold glweRotate
+    rw [check_true _ _ (beq_true ha.1), check_true _ _ (beq_true hr.1)]; simp [check, hf]
+  · unfold glweMulXpMinusOne
+    rw [check_true _ _ (beq_true hr.1), check_true _ _ (beq_true ha.1)]; simp [check, hf]
 
-theorem rsh_zero_counterexample :
-    ¬ (∀ (res r' : GLWE), GWF 2 res → glweRsh 2 0 0 res = .ok r' →
-        ∀ t, (valCoeff res.base2k (col r' 1) t - valCoeff res.base2k (col res 1) t) % 2 ^ (res.base2k * res.size) = 0) := by
-  intro h
-  have := h exRsh { exRsh with cols := [[[-7, 0]], [[2, 1]]] } (by decide) (by decide +kernel) 0
-  revert this
-  decide
-
-/-- and the shifts that leave the one-limb-step region panic or misplace the carry -/
-theorem rsh_steps_counterexample :
-    (∃ c, glweRsh 2 0 2 { base2k := 1, k := 1, n := 2, cols := [[[1, 1]]] } = .panic c) ∧
-    glweRsh 2 0 2 { base2k := 1, k := 2, n := 2, cols := [[[0, 0], [1, 1]]] }
-      = .ok { base2k := 1, k := 2, n := 2, cols := [[[-1, -1], [0, 0]]] } :=
-  ⟨⟨"assert", by decide +kernel⟩, by decide +kernel⟩
-
-/-
-FULL STATEMENT (false of the code): `glwe_negate` / `glwe_copy` / `glwe_rotate` /
-`glwe_mul_xp_minus_one` act on the torus value of the phase as negation / identity / `X^k` /
-`X^k − 1` for every pair of operands the API admits.  The API admits operands of different radices
-(no `base2k` assertion; the `res.base2k = a.base2k` at the end of `glwe_negate` is a dead store into
-the temporary made by `to_mut()`), for which the limbs are copied verbatim.  The proved theorems
-above are the `_partial` versions: they state the limb-column identity, which is the torus identity
-exactly when `res.base2k = a.base2k`.
--/
-
-/-- witness: a plaintext `1·2^-4` negated into a radix-`2^7` object becomes `−1·2^-7` -/
-theorem negate_radix_counterexample :
-    ¬ (∀ (res a r' : GLWE), GWF 2 res → GWF 2 a → a.rank = res.rank → glweNegate 2 res a = .ok r' →
-        ∀ t, (valCoeff r'.base2k (phase [] r') t * 2 ^ (a.base2k * a.size)
-              + valCoeff a.base2k (phase [] a) t * 2 ^ (r'.base2k * r'.size)) % 2 ^ (a.base2k * a.size + r'.base2k * r'.size) = 0) := by
-  intro h
-  have := h { base2k := 7, k := 7, n := 2, cols := [[[0, 0]]] } { base2k := 4, k := 4, n := 2, cols := [[[1, 2]]] }
-    { base2k := 7, k := 7, n := 2, cols := [[[-1, -2]]] } (by decide) (by decide) rfl (by decide +kernel) 0
-  revert this
-  decide
+example : glweNegate 2 { base2k := 7, k := 7, n := 2, cols := [[[0, 0]]] } { base2k := 4, k := 4, n := 2, cols := [[[1, 2]]] }
+    = .panic "assert" :=
+  (radix_mismatch_rejected (N := 2) 0 (by decide) (by decide) (by decide)).1
 
 end C02
